@@ -10,7 +10,7 @@ import (
 	"verif/internal/props/pcommon"
 )
 
-const quickN, thoroughN = 3000, 250000
+const quickN, thoroughN = 30000, 2000000
 
 const rule = "programs: 2-6 scenarios each creating closures (getter/bumper pairs, captured parameters, loop variables, upvalues of upvalues, environment inheritance via setfenv/getfenv) in a scope that is then left by " +
 	"fall-through, break, goto out of nested blocks, backward goto, return, tail call, an error caught by pcall or xpcall, coroutine suspension and death; afterwards unrelated code reuses the registers " +
